@@ -215,7 +215,8 @@ def physStep (op : String) (a : List String) : String :=
       | "root-sidecar-digest" => some .rootSidecarDigest | "ver-sidecar-digest" => some .verSidecarDigest
       | "decl-delete" => some .declDelete | "decl-alter" => some .declAlter | "stray-root" => some .strayRoot
       | "stray-version" => some .strayVersion | "stray-content" => some .strayContent
-      | "remove-version-dir" => some .removeVersionDir | _ => none
+      | "remove-version-dir" => some .removeVersionDir
+      | "meta-to-symlink" => some .metaToSymlink | "meta-to-emptydir" => some .metaToEmptyDir | _ => none
     match c? with
     | some c => "ok " ++ ",".intercalate (Validator.expectedCodes c (fx == "1"))
     | none => "bad-arg"
